@@ -84,6 +84,23 @@ pub const MUST_REJECT_ATTRS: &[(&str, &str)] = &[
     ("#[regex(\"(?&nope)\")]", "undefined subpattern"),
     ("#[regex(\"a(?&alsonope)b\")]", "undefined subpattern"),
 ];
+/// (enum-level attributes, variant attribute, independent reason): must-reject classes that need an enum-level item
+/// (a subpattern, a mode) next to the pattern
+pub const MUST_REJECT_DEFS: &[(&str, &str, &str)] = &[
+    ("#[logos(subpattern wb = r\"\\b\")]", "#[regex(\"[a-z]+(?&wb)\")]", "Unicode word boundary inside a subpattern"),
+    ("#[logos(subpattern wb = r\"\\b\")]", "#[regex(b\"[a-z]+(?&wb)\")]", "Unicode word boundary inside a str subpattern referenced from a byte-string pattern"),
+    ("#[logos(subpattern nb = r\"\\B\")]", "#[regex(b\"a(?&nb)b\")]", "Unicode word boundary inside a str subpattern referenced from a byte-string pattern"),
+    ("#[logos(utf8 = false)]\n#[logos(subpattern wb = r\"x\\b\")]", "#[regex(b\"(?&wb)\")]", "Unicode word boundary inside a str subpattern (byte mode, byte-string pattern)"),
+    ("#[logos(utf8 = false)]\n#[logos(subpattern bs = b\"[a-z]+\")]\n#[logos(subpattern wb = r\"(?&bs)\\b\")]", "#[regex(b\"(?&wb)!\")]", "Unicode word boundary inside a str subpattern (nested, byte mode)"),
+    ("#[logos(utf8 = false)]", "#[regex(\"a\\\\b\")]", "Unicode word boundary (str pattern in byte mode)"),
+    ("#[logos(utf8 = false)]", "#[regex(b\"a(?u:\\\\b)\")]", "Unicode word boundary (Unicode flag re-enabled in a byte-string pattern)"),
+    ("#[logos(subpattern e = \"a?\")]", "#[regex(\"(?&e)\")]", "matches the empty string (through a subpattern)"),
+    ("#[logos(subpattern d = \"[0-9]\")]", "#[regex(\"(?&d)*\")]", "matches the empty string (repetition of a subpattern)"),
+    ("#[logos(subpattern g = \".*\")]", "#[regex(\"a(?&g)\")]", "unbounded greedy dot (inside a subpattern) without allow_greedy"),
+    ("#[logos(subpattern dot = \".\")]", "#[regex(\"a(?&dot)+\")]", "unbounded greedy dot (the dot comes from a subpattern) without allow_greedy"),
+    ("#[logos(subpattern lb = \"^a\")]", "#[regex(\"(?&lb)b\")]", "look-behind at the token start (inside a subpattern)"),
+    ("#[logos(subpattern d = \"[0-9]\")]", "#[regex(\"(?&d)(?&dd)\")]", "undefined subpattern next to a defined one"),
+];
 pub const MUST_REJECT_SHAPES: &[(&str, &str)] = &[
     ("{ x: u8 }", "named fields"),
     ("()", "empty tuple variant"),
